@@ -322,6 +322,34 @@ func (ex *Exec) verifyFunc(fn *ssa.Function, c *Contract) {
 			}
 		}
 		ex.replayCur = nil
+		// `fresh x [when c]`: callers assume the result was allocated by this
+		// call, so it is an obligation of the body (allocated at or after alloc0)
+		for i, fc := range c.Fresh {
+			v, err := ex.evalSpec(fc.Expr, post)
+			if err != nil {
+				ex.errors = append(ex.errors, fmt.Sprintf("fresh %s: %v", fc.Text, err))
+				continue
+			}
+			cond := TrueT
+			if fc.When != nil {
+				cc, err := ex.evalSpecBool(fc.When, post)
+				if err != nil {
+					ex.errors = append(ex.errors, fmt.Sprintf("fresh %s: %v", fc.Text, err))
+					continue
+				}
+				cond = cc
+			}
+			id, err := ex.idOfErr(v)
+			if err != nil {
+				ex.errors = append(ex.errors, fmt.Sprintf("fresh %s: %v", fc.Text, err))
+				continue
+			}
+			n0 := len(st2.script)
+			ex.check(st2, fr0, "post", fmt.Sprintf("fresh%d", i+1), Implies(cond, And(Gt(id, IntLit(0)), Or(Ge(id, mkTerm("alloc0", SortInt)), Not(mkTerm("(isold "+id.S+")", SortBool))))), fc.Props, "fresh "+fc.Text+": the value is allocated during the call", c.File)
+			if len(st2.script) > n0 && st2.script[len(st2.script)-1].Check != nil {
+				st2.script[len(st2.script)-1].Check.NoAssume = true
+			}
+		}
 		ex.frameChecks(st2, fr0, fdecl, c.File)
 		ex.endPath(st2, "ret")
 	})
